@@ -1,4 +1,5 @@
 import CuriesVerif.Properties.C04
+import CuriesVerif.Lemmas.GroupBy
 
 /-!
 # C13 — every loader yields exactly the converter its input format denotes
@@ -16,9 +17,14 @@ result is well-formed and C01/C02 say how it answers.  Proved here:
 * `C13_upgrade_canonical`: within a group, `upgrade_prefix_map` makes the lexicographically first
   CURIE prefix canonical and the rest synonyms; every produced record passes the validators.
 
+* `groupInv_groupBy` (`Lemmas/GroupBy.lean`): the `defaultdict(list)` grouping is complete and
+  order-preserving; from it `C13_reverse_complete` (no reverse-map item dropped or invented, one
+  record per CURIE prefix), `C13_upgrade_ok` / `C13_upgrade_accepted` (for every dictionary
+  `upgrade_prefix_map` succeeds, its records denote exactly the input items and a strict converter
+  accepts them) and `C13_upgrade_perm` (the dictionary order is irrelevant).
+
 Resting on the correspondence (and on the Lean checker comparing the implementation's records
-with the denoted ones on every run): completeness of the grouping (`groupBy`), order
-independence of `upgrade_prefix_map`, file loading.
+with the denoted ones on every run): file loading (str / Path), `from_rdflib`.
 -/
 
 open Spec Loaders
@@ -183,4 +189,308 @@ example :
     (reverseRecords [([117, 47, 120], [97]), ([117, 47], [97])]).toOption = some [⟨[97], [117, 47], [], [[117, 47, 120]], none⟩] ∧
     (jsonldPrefixMap [([64, 98], .str [120]), ([], .str [121]), ([97], .str [117]), ([98], .prefixDict (some [118])),
         ([99], .other)]).toOption = some [([97], [117]), ([98], [118])] := by
+  decide
+
+
+theorem mem_valuesOf (kvs : List (Str × Str)) (k v : Str) : v ∈ valuesOf kvs k ↔ (k, v) ∈ kvs := by
+  unfold valuesOf
+  simp only [List.mem_map, List.mem_filter, beq_iff_eq]
+  constructor
+  · rintro ⟨kv, ⟨hm, hk⟩, hv⟩
+    obtain ⟨a, b⟩ := kv
+    simp only at hk hv
+    subst hk; subst hv; exact hm
+  · intro h
+    exact ⟨(k, v), ⟨h, rfl⟩, rfl⟩
+
+theorem valuesOf_perm {kvs kvs' : List (Str × Str)} (h : kvs.Perm kvs') (k : Str) :
+    (valuesOf kvs k).Perm (valuesOf kvs' k) := (h.filter _).map _
+
+theorem Forall2.mem_left {α β : Type} {R : α → β → Prop} {l₁ : List α} {l₂ : List β} (h : Forall2 R l₁ l₂)
+    {a : α} (ha : a ∈ l₁) : ∃ b ∈ l₂, R a b := by
+  induction h with
+  | nil => cases ha
+  | cons hr _ ih =>
+    rcases List.mem_cons.mp ha with rfl | ha
+    · exact ⟨_, by simp, hr⟩
+    · obtain ⟨b, hb, hR⟩ := ih ha
+      exact ⟨b, by simp [hb], hR⟩
+
+theorem mapM_ok_of_forall {α β ε : Type} (f : α → Except ε β) (g : α → β) (l : List α)
+    (h : ∀ a ∈ l, f a = .ok (g a)) : l.mapM f = .ok (l.map g) := by
+  induction l with
+  | nil => rfl
+  | cons a as ih =>
+    rw [List.mapM_cons, h a (by simp), ih (fun x hx => h x (by simp [hx]))]
+    rfl
+
+theorem sortStrs_eq_of_perm {l₁ l₂ : List Str} (h : l₁.Perm l₂) : sortStrs l₁ = sortStrs l₂ := by
+  refine List.Perm.eq_of_pairwise (le := fun a b => a ≤ b) ?_ (sortStrs_sorted l₁) (sortStrs_sorted l₂)
+    (((sortStrs_perm l₁).trans h).trans (sortStrs_perm l₂).symm)
+  intro a b _ _ hab hba
+  exact Std.le_antisymm hab hba
+
+/-- sorting by key is determined by the set of entries when the keys are distinct -/
+theorem isort_key_eq_of_perm {β : Type} {g₁ g₂ : List (Str × β)} (hp : g₁.Perm g₂) (hn : (g₂.map (·.1)).Nodup) :
+    isort (fun (a b : Str × β) => strLe a.1 b.1) g₁ = isort (fun (a b : Str × β) => strLe a.1 b.1) g₂ := by
+  have tot : ∀ a b : Str × β, strLe a.1 b.1 = true ∨ strLe b.1 a.1 = true := fun a b => by
+    simp only [strLe, decide_eq_true_eq]; exact Std.le_total (a := a.1) (b := b.1)
+  have trans : ∀ a b c : Str × β, strLe a.1 b.1 = true → strLe b.1 c.1 = true → strLe a.1 c.1 = true :=
+    fun a b c h1 h2 => by simp only [strLe, decide_eq_true_eq] at *; exact Std.le_trans h1 h2
+  refine List.Perm.eq_of_pairwise (le := fun a b => strLe a.1 b.1 = true) ?_ (isort_sorted _ tot trans _)
+    (isort_sorted _ tot trans _) (((isort_perm _ _).trans hp).trans (isort_perm _ _).symm)
+  intro a b ha hb hab hba
+  have hk : a.1 = b.1 := by
+    simp only [strLe, decide_eq_true_eq] at hab hba
+    exact Std.le_antisymm hab hba
+  have ha2 : a ∈ g₂ := hp.mem_iff.mp ((mem_isort _ _ _).mp ha)
+  have hb2 : b ∈ g₂ := (mem_isort _ _ _).mp hb
+  obtain ⟨a1, a2⟩ := a
+  obtain ⟨b1, b2⟩ := b
+  simp only at hk
+  subst hk
+  rw [Discovery.unique_of_nodup_keys hn ha2 hb2]
+
+/-- the sorted groups `upgrade_prefix_map` works on -/
+def upgradeGroups (pm : List (Str × Str)) : List (Str × List Str) :=
+  isort (fun (a b : Str × List Str) => strLe a.1 b.1)
+    ((groupBy (pm.map fun kv => (kv.2, kv.1))).map fun g => (g.1, sortStrs g.2))
+
+def upgradeRec (g : Str × List Str) : Except Err Record :=
+  match g.2 with
+  | [] => .error .indexError
+  | p :: ps => Record.validate { pfx := p, uri := g.1, pSyn := ps }
+
+theorem upgradePrefixMap_eq (pm : List (Str × Str)) : upgradePrefixMap pm = (upgradeGroups pm).mapM upgradeRec := rfl
+
+/-- the record denoted by a sorted group -/
+def groupRec (g : Str × List Str) : Record := { pfx := g.2.headD [], uri := g.1, pSyn := g.2.tail }
+
+/-- what the sorted groups are: distinct URI prefixes, each with the sorted, duplicate-free,
+non-empty list of the CURIE prefixes mapped to it -/
+theorem upgradeGroups_spec (pm : List (Str × Str)) (hn : (pm.map (·.1)).Nodup) :
+    ((upgradeGroups pm).map (·.1)).Nodup ∧
+    (∀ g ∈ upgradeGroups pm, g.2 ≠ [] ∧ g.2.Nodup ∧ ∀ p, p ∈ g.2 ↔ (p, g.1) ∈ pm) ∧
+    (∀ p u, (p, u) ∈ pm → ∃ g ∈ upgradeGroups pm, g.1 = u) := by
+  have inv := groupInv_groupBy (pm.map fun kv => (kv.2, kv.1))
+  have hmem : ∀ p u, (u, p) ∈ pm.map (fun kv => (kv.2, kv.1)) ↔ (p, u) ∈ pm := by
+    intro p u
+    simp only [List.mem_map, Prod.mk.injEq]
+    constructor
+    · rintro ⟨⟨a, b⟩, hm, h1, h2⟩; simp only at h1 h2; subst h1; subst h2; exact hm
+    · intro h; exact ⟨(p, u), h, rfl, rfl⟩
+  have hvn : ∀ k, (valuesOf (pm.map fun kv => (kv.2, kv.1)) k).Nodup := by
+    intro k
+    unfold valuesOf
+    rw [List.filter_map, List.map_map]
+    exact (List.Pairwise.sublist (List.Sublist.map _ List.filter_sublist) hn)
+  refine ⟨?_, ?_, ?_⟩
+  · unfold upgradeGroups
+    refine ((isort_perm _ _).map _).nodup_iff.mpr ?_
+    rw [List.map_map]
+    exact inv.keys
+  · intro g hg
+    unfold upgradeGroups at hg
+    rw [mem_isort] at hg
+    obtain ⟨g0, hg0, rfl⟩ := List.mem_map.mp hg
+    have hgr := inv.group g0 hg0
+    refine ⟨?_, ?_, ?_⟩
+    · intro he
+      have := (sortStrs_perm g0.2).length_eq
+      simp only at he
+      rw [he] at this
+      exact hgr.2 (List.length_eq_zero_iff.mp this.symm)
+    · exact (sortStrs_perm g0.2).nodup_iff.mpr (by rw [hgr.1]; exact hvn _)
+    · intro p
+      simp only
+      rw [mem_sortStrs, hgr.1, mem_valuesOf, hmem]
+  · intro p u hpu
+    obtain ⟨g0, hg0, he⟩ := inv.cover (u, p) ((hmem p u).mpr hpu)
+    refine ⟨(g0.1, sortStrs g0.2), ?_, he⟩
+    unfold upgradeGroups
+    rw [mem_isort]
+    exact List.mem_map.mpr ⟨g0, hg0, rfl⟩
+
+theorem upgradeRec_ok {g : Str × List Str} (h1 : g.2 ≠ []) (h2 : g.2.Nodup) : upgradeRec g = .ok (groupRec g) := by
+  obtain ⟨u, ps⟩ := g
+  cases ps with
+  | nil => exact absurd rfl h1
+  | cons p ps =>
+    have hp : p ∉ ps := (List.nodup_cons.mp h2).1
+    unfold upgradeRec Record.validate groupRec
+    simp [hp]
+
+theorem allP_groupRec {g : Str × List Str} (h1 : g.2 ≠ []) : (groupRec g).allP = g.2 := by
+  obtain ⟨u, ps⟩ := g
+  cases ps with
+  | nil => exact absurd rfl h1
+  | cons p ps => rfl
+
+/-- **C13.** Given a dictionary (distinct keys), `upgrade_prefix_map` never raises; the records it
+returns pass the validators and the strict constructor's uniqueness test (`Unique`), carry no URI
+prefix synonyms, and denote exactly the input: `(p, u)` is an item of the prefix map iff the
+record with URI prefix `u` has `p` as canonical prefix or synonym. -/
+theorem C13_upgrade_ok (pm : List (Str × Str)) (hn : (pm.map (·.1)).Nodup) :
+    ∃ recs, upgradePrefixMap pm = .ok recs ∧ Unique recs ∧ (∀ r ∈ recs, RecOK r ∧ r.uSyn = []) ∧
+      (∀ p u, (p, u) ∈ pm ↔ ∃ r ∈ recs, r.uri = u ∧ p ∈ r.allP) := by
+  obtain ⟨hkeys, hgrp, hcov⟩ := upgradeGroups_spec pm hn
+  have hok : upgradePrefixMap pm = .ok ((upgradeGroups pm).map groupRec) := by
+    rw [upgradePrefixMap_eq]
+    exact mapM_ok_of_forall _ _ _ (fun g hg => upgradeRec_ok (hgrp g hg).1 (hgrp g hg).2.1)
+  refine ⟨_, hok, ?_, ?_, ?_⟩
+  · unfold Unique
+    rw [List.pairwise_map]
+    have hpk : (upgradeGroups pm).Pairwise (fun a b => a.1 ≠ b.1) := List.pairwise_map.mp hkeys
+    refine hpk.imp_of_mem ?_
+    intro a b ha hb hab
+    constructor
+    · intro x hxa hxb
+      rw [allP_groupRec (hgrp a ha).1] at hxa
+      rw [allP_groupRec (hgrp b hb).1] at hxb
+      have h1 := ((hgrp a ha).2.2 x).mp hxa
+      have h2 := ((hgrp b hb).2.2 x).mp hxb
+      exact hab (Discovery.unique_of_nodup_keys hn h1 h2)
+    · intro x hxa hxb
+      simp only [groupRec, Record.allU, List.mem_singleton] at hxa hxb
+      exact hab (hxa.symm.trans hxb)
+  · intro r hr
+    obtain ⟨g, hg, rfl⟩ := List.mem_map.mp hr
+    refine ⟨⟨?_, by simp [groupRec]⟩, rfl⟩
+    obtain ⟨u, ps⟩ := g
+    cases ps with
+    | nil => exact absurd rfl (hgrp _ hg).1
+    | cons p ps => exact (List.nodup_cons.mp (hgrp _ hg).2.1).1
+  · intro p u
+    constructor
+    · intro hpu
+      obtain ⟨g, hg, he⟩ := hcov p u hpu
+      refine ⟨groupRec g, List.mem_map.mpr ⟨g, hg, rfl⟩, he, ?_⟩
+      rw [allP_groupRec (hgrp g hg).1, (hgrp g hg).2.2 p, he]
+      exact hpu
+    · rintro ⟨r, hr, hu, hp⟩
+      obtain ⟨g, hg, rfl⟩ := List.mem_map.mp hr
+      rw [allP_groupRec (hgrp g hg).1, (hgrp g hg).2.2 p] at hp
+      have : g.1 = u := hu
+      rw [← this]; exact hp
+
+/-- **C13.** … so a strict converter accepts them, for every delimiter. -/
+theorem C13_upgrade_accepted (pm : List (Str × Str)) (hn : (pm.map (·.1)).Nodup) (d : Str) :
+    ∃ recs c, upgradePrefixMap pm = .ok recs ∧ Conv.init? recs d true = .ok c ∧ WF c := by
+  obtain ⟨recs, hok, hu, hr, _⟩ := C13_upgrade_ok pm hn
+  obtain ⟨c, hc⟩ := (init?_ok_iff recs d).mpr hu
+  exact ⟨recs, c, hok, hc, wf_of_init (fun r h => (hr r h).1) hc⟩
+
+/-- **C13 (dictionary order).** Two dictionaries with the same items in different insertion order
+are upgraded to the same list of records. -/
+theorem C13_upgrade_perm (pm pm' : List (Str × Str)) (hp : pm.Perm pm') (hn : (pm.map (·.1)).Nodup) :
+    upgradePrefixMap pm = upgradePrefixMap pm' := by
+  have hn' : (pm'.map (·.1)).Nodup := (hp.map _).nodup_iff.mp hn
+  rw [upgradePrefixMap_eq, upgradePrefixMap_eq]
+  congr 1
+  unfold upgradeGroups
+  have hsw : (pm.map fun kv => (kv.2, kv.1)).Perm (pm'.map fun kv => (kv.2, kv.1)) := hp.map _
+  have inv := groupInv_groupBy (pm.map fun kv => (kv.2, kv.1))
+  have inv' := groupInv_groupBy (pm'.map fun kv => (kv.2, kv.1))
+  -- membership in the list of sorted groups, from the invariant alone
+  have memG : ∀ (kvs : List (Str × Str)) (G : List (Str × List Str)), GroupInv kvs G → ∀ x : Str × List Str,
+      x ∈ G.map (fun g => (g.1, sortStrs g.2)) ↔ x.2 = sortStrs (valuesOf kvs x.1) ∧ valuesOf kvs x.1 ≠ [] := by
+    intro kvs G hG x
+    constructor
+    · intro hx
+      obtain ⟨g, hg, rfl⟩ := List.mem_map.mp hx
+      have := hG.group g hg
+      exact ⟨by simp only; rw [this.1], by simp only; rw [← this.1]; exact this.2⟩
+    · rintro ⟨h1, h2⟩
+      obtain ⟨v, hv⟩ := List.exists_mem_of_ne_nil _ h2
+      obtain ⟨g, hg, he⟩ := hG.cover (x.1, v) ((mem_valuesOf _ _ _).mp hv)
+      refine List.mem_map.mpr ⟨g, hg, ?_⟩
+      obtain ⟨x1, x2⟩ := x
+      simp only at h1 he ⊢
+      rw [(hG.group g hg).1, he, h1]
+  have nodupG : ∀ (G : List (Str × List Str)), (G.map (·.1)).Nodup → (G.map (fun g => (g.1, sortStrs g.2))).Nodup := by
+    intro G hG
+    refine Discovery.nodup_of_map_nodup (·.1) _ ?_
+    rw [List.map_map]; exact hG
+  have hperm : ((groupBy (pm.map fun kv => (kv.2, kv.1))).map fun g => (g.1, sortStrs g.2)).Perm
+      ((groupBy (pm'.map fun kv => (kv.2, kv.1))).map fun g => (g.1, sortStrs g.2)) := by
+    rw [List.perm_ext_iff_of_nodup (nodupG _ inv.keys) (nodupG _ inv'.keys)]
+    intro x
+    rw [memG _ _ inv, memG _ _ inv']
+    have hv := valuesOf_perm hsw x.1
+    rw [sortStrs_eq_of_perm hv]
+    constructor
+    · rintro ⟨h1, h2⟩
+      exact ⟨h1, fun he => h2 (List.length_eq_zero_iff.mp (by rw [hv.length_eq, he]; rfl))⟩
+    · rintro ⟨h1, h2⟩
+      exact ⟨h1, fun he => h2 (List.length_eq_zero_iff.mp (by rw [← hv.length_eq, he]; rfl))⟩
+  refine isort_key_eq_of_perm hperm ?_
+  rw [List.map_map]; exact inv'.keys
+
+/-- **C13.** `from_reverse_prefix_map` drops nothing and invents nothing: a successful load yields one
+record per distinct CURIE prefix, and `u` is a URI prefix (canonical or synonym) of the record of `p`
+exactly when `u ↦ p` is an item of the reverse map. -/
+theorem C13_reverse_complete (rpm : List (Str × Str)) (recs : List Record) (h : reverseRecords rpm = .ok recs) :
+    (recs.map (·.pfx)).Nodup ∧
+    (∀ u p, (u, p) ∈ rpm ↔ ∃ r ∈ recs, r.pfx = p ∧ u ∈ r.allU) ∧
+    (∀ r ∈ recs, r.pSyn = [] ∧ RecOK r) := by
+  unfold reverseRecords at h
+  have inv := groupInv_groupBy (rpm.map fun kv => (kv.2, kv.1))
+  have hmem : ∀ u p, (p, u) ∈ rpm.map (fun kv => (kv.2, kv.1)) ↔ (u, p) ∈ rpm := by
+    intro u p
+    simp only [List.mem_map, Prod.mk.injEq]
+    constructor
+    · rintro ⟨⟨a, b⟩, hm, h1, h2⟩; simp only at h1 h2; subst h1; subst h2; exact hm
+    · intro h; exact ⟨(u, p), h, rfl, rfl⟩
+  have hf := mapM_ok_forall₂ _ _ _ h
+  -- what one successful group conversion says
+  have one : ∀ (g : Str × List Str) (r : Record),
+      (match sortByLen g.2 with
+        | [] => (.error .indexError : Except Err Record)
+        | u :: us => Record.validate { pfx := g.1, uri := u, uSyn := us }) = .ok r →
+      r.pfx = g.1 ∧ r.pSyn = [] ∧ RecOK r ∧ ∀ u, u ∈ r.allU ↔ u ∈ g.2 := by
+    intro g r hr
+    cases hs : sortByLen g.2 with
+    | nil => simp [hs] at hr
+    | cons u us =>
+      simp only [hs] at hr
+      have hv := validate_ok hr
+      rw [hv.1]
+      refine ⟨rfl, rfl, hv.2, ?_⟩
+      intro x
+      have := (sortByLen_perm g.2).mem_iff (a := x)
+      rw [hs] at this
+      exact this
+  have keysEq : recs.map (·.pfx) = (groupBy (rpm.map fun kv => (kv.2, kv.1))).map (·.1) := by
+    clear h
+    generalize groupBy (rpm.map fun kv => (kv.2, kv.1)) = G at hf
+    induction hf with
+    | nil => rfl
+    | cons hr _ ih => simp only [List.map_cons, ih, (one _ _ hr).1]
+  refine ⟨by rw [keysEq]; exact inv.keys, ?_, ?_⟩
+  · intro u p
+    constructor
+    · intro hup
+      obtain ⟨g, hg, he⟩ := inv.cover (p, u) ((hmem u p).mpr hup)
+      obtain ⟨r, hr, hR⟩ := hf.mem_left hg
+      have ho := one g r hR
+      refine ⟨r, hr, ho.1.trans he, (ho.2.2.2 u).mpr ?_⟩
+      rw [(inv.group g hg).1, mem_valuesOf, he]
+      exact (hmem u p).mpr hup
+    · rintro ⟨r, hr, hp, hu⟩
+      obtain ⟨g, hg, hR⟩ := mapM_ok_mem _ _ _ h r hr
+      have ho := one g r hR
+      have := (ho.2.2.2 u).mp hu
+      rw [(inv.group g hg).1, mem_valuesOf, hmem] at this
+      rw [← hp, ho.1]; exact this
+  · intro r hr
+    obtain ⟨g, hg, hR⟩ := mapM_ok_mem _ _ _ h r hr
+    exact ⟨(one g r hR).2.1, (one g r hR).2.2.1⟩
+
+/-- Non-vacuity: two insertion orders of a non-bijective prefix map give the same records; a reverse
+map with three URI prefixes for one prefix keeps all three. -/
+example :
+    (upgradePrefixMap [([98], [117]), ([99], [118]), ([97], [117])]).toOption
+      = (upgradePrefixMap [([97], [117]), ([98], [117]), ([99], [118])]).toOption ∧
+    (reverseRecords [([117, 47, 120], [97]), ([118], [97]), ([117, 47], [98]), ([119, 119], [97])]).toOption
+      = some [⟨[97], [118], [], [[119, 119], [117, 47, 120]], none⟩, ⟨[98], [117, 47], [], [], none⟩] := by
   decide
